@@ -1,6 +1,6 @@
 (* Properties_C07.v — the theorems that decide property C07 on the model, each stated in full and closed by
    `exact <lemma>`; the lemmas live in the Proofs_*.v files.  Nothing else belongs in this file. *)
-From Theo Require Import Base Tokens MacroExtract Parser VMModel VMSpec VMStatements RefSem SemStatements Proofs_Sem.
+From Theo Require Import Base Tokens MacroExtract Parser VMModel VMSpec VMStatements RefSem SemStatements Proofs_Sem C07Statements Regex Errors Lexer Scan Grammar LR MacroApply GenModel Compile RefSemChk C01Statements C01Stages C01Stages3 C01Stages4 Gen_Lexer Gen_Consts Proofs_C07.
 Local Open Scope Z_scope.
 
 
@@ -11,3 +11,21 @@ Theorem C07_stops_are_sites :
        exists l, alookup z_ltb (line_info p) (ip s) = Some l /\ getCurrentBreak s' = Some l /\ In l (available p)).
 Proof. exact C07_stops_are_sites_proof. Qed.
 Print Assumptions C07_stops_are_sites.
+
+Theorem C07_jumps :
+  forall root r rs fuel rviews steps trace,
+    jumps root = true -> lexable_names root = true ->
+    gen true [] (Some root) = Ok r -> gr_ok r = true ->
+    abstract_source (Some root) = Some rs ->
+    run_ref_chk fuel rs = OStop rviews steps trace ->
+    trace_conclusion r trace rviews.
+Proof. exact C07_jumps_proof. Qed.
+Print Assumptions C07_jumps.
+
+Theorem C07_no_hidden_stops :
+  forall root rs fuel rviews steps trace l vs,
+    abstract_source (Some root) = Some rs ->
+    run_ref_chk fuel rs = OStop rviews steps trace ->
+    In (l, vs) trace -> fst l <> hidden_file.
+Proof. exact C07_no_hidden_stops_proof. Qed.
+Print Assumptions C07_no_hidden_stops.
